@@ -181,12 +181,15 @@ PROPS = {
                       'both error payloads, the whole struct unchanged on Err, only `last` changed on Ok); insert/add are verified to run '
                       'it first and to leave the builder untouched when it rejects, and otherwise to extend the denotation of the builder '
                       'by exactly the accepted (key, value).',
-        'level_note': 'Slice order on [u8] is an assumed std contract (lexicographic). extend_iter (raw, map, set) is verified on its real loop '
-                      '(the `for` written out as the loop over next() it abbreviates, rule R19; the parameter taken at I: Iterator, rule R20) against '
-                      'the prophetic iterator model of vstd: Ok only if every item passed the ordering check, and then exactly these entries were added. '
-                      'What an Err leaves behind is not stated (a converting `?` hides whether the error came from the sink). from_iter/extend_stream: not decided.',
+        'level_note': 'Slice order on [u8] is an assumed std contract (lexicographic). extend_iter and extend_stream (raw, map, set), Map/Set::from_iter and '
+                      'Fst::from_iter_set/from_iter_map are verified on their real loops (a `for` over a generic iterator written out as the loop over '
+                      'next() it abbreviates, rule R19; an IntoIterator parameter taken at I: Iterator, rule R20; streams through a ghost `rest()` on '
+                      'the Streamer trait) against the prophetic iterator model of vstd: Ok only if every item passed the ordering check, and then '
+                      'exactly these entries were added; on a sink that cannot fail (Vec<u8>) Ok *iff* every item passes. What an Err leaves behind '
+                      'after an iterator front end is not stated (a converting `?` hides whether the error came from the sink). '
+                      'SetBuilder::extend_stream rejected repeats (genuine defect, fixed by 3c9cd25).',
         'explanation': 'C06 clauses are postconditions of check_last_key / insert / add in unit builder.',
-        'assumptions': ['from_iter and extend_stream not decided by a verifier', 'termination of extend_iter is not proved (a generic iterator may be infinite)'],
+        'assumptions': ['termination of the iterator front ends is not proved (a generic iterator or stream may be infinite)', 'prophetic iterator model of vstd for generic Iterator; ghost rest() model for Streamer implementors'],
     },
     'C07': {
         'units': ['cw', 'bytesio', 'encode', 'builder'],
